@@ -57,7 +57,13 @@ def worker(args, scratch):
                     vid = "c10-%d-%d-%d" % (args["shard"], ci, n)
                     n += 1
                     t0 = time.monotonic_ns()
-                    conn.send(rawhttp.build_request("GET", "/k/%s?a=1&b=2" % vid, [("x-vf-id", vid), ("x-h", "v")]))
+                    hs = [("x-vf-id", vid), ("x-h", "v")]
+                    if n % 9 == 4:
+                        # the client supplies an authorization header of its own that names a real key id: what the host receives must still be
+                        # one header whose id and MAC belong together
+                        hs.append(("x-ms-azure-host-authorization", "Azure-HMAC-SHA256 %s %s" % (klist[rr.randrange(len(klist))]["guid"], "ab" * 32)))
+                        bump("requests_with_a_client_supplied_authorization_header")
+                    conn.send(rawhttp.build_request("GET", "/k/%s?a=1&b=2" % vid, hs))
                     resp = conn.read_response()
                     t1 = time.monotonic_ns()
                     with lock:
